@@ -12,7 +12,9 @@ from .davdriver import DavSession, SLOTS
 ICS_NAMES = ["a.ics", "b.ics", "c.ics", "d e.ics", "E.ICS.ics", "UP.ICS", "Mixed.Ics",
              "Rene\u0301.ics", "Ren\u00e9.ics",
              # a literal percent sign followed by two hex digits, and the name it would decode to
-             "ev%41.ics", "evA.ics"]
+             "ev%41.ics", "evA.ics",
+             # a name beginning with a dot
+             ".hidden.ics"]
 VCF_NAMES = ["c.vcf", "d.vcf", "x y.vcf"]
 # members of other media types (stored as they are, never validated)
 OTHER_NAMES = ["notes.txt", "blob.bin"]
@@ -110,6 +112,12 @@ def ics_pool(rng, uidheavy=False):
         # the same UID carried by a component that is not an event
         pool.append(gamma.ics_event(u, "Task " + tag, comp="VTODO", dtend=None))
     pool.append(gamma.ics_event(None, "no uid at all"))
+    # a property that may occur only once occurs twice (servers may refuse these - but then
+    # without leaving anything behind)
+    pool.append(gamma.ics_event("odd-1", "twice", extra=("DTSTART:20200102T100000Z",)))
+    pool.append(gamma.ics_event("odd-2", "twice", extra=("CLASS:PUBLIC", "CLASS:PRIVATE")))
+    pool.append(gamma.ics_event("odd-3", "twice", comp="VTODO", dtend=None,
+                                extra=("PERCENT-COMPLETE:10", "PERCENT-COMPLETE:20")))
     pool.append(gamma.ics_event("todo-1", "A task", comp="VTODO", dtend=None))
     return [(b, True) for b in pool]
 
@@ -137,6 +145,11 @@ INVALID_VCF = [
     b"",
     b"FN:No envelope\r\n",
     b"BEGIN:VCARD\r\nVERSION:3.0\r\nFN:cut",
+    # one complete card followed by something that is not a card
+    b"BEGIN:VCARD\r\nVERSION:3.0\r\nFN:Ada\r\nN:Ada;;;;\r\nEND:VCARD\r\nand then some text\r\n",
+    b"BEGIN:VCARD\r\nVERSION:3.0\r\nFN:Ada\r\nN:Ada;;;;\r\nEND:VCARD\r\nBEGIN:VCARD\r\nVERSION:3.0\r\nFN:cut off",
+    b"BEGIN:VCARD\r\nVERSION:3.0\r\nFN:Ada\r\nN:Ada;;;;\r\nEND:VCARD\r\n\x01\x02 junk\r\n",
+    b"junk before\r\nBEGIN:VCARD\r\nVERSION:3.0\r\nFN:Ada\r\nN:Ada;;;;\r\nEND:VCARD\r\n",
 ]
 
 
